@@ -30,13 +30,22 @@ def mk(text, coq, t, op, *kids):
 
 
 class Gen:
-    def __init__(self, rng, cols, max_depth=3, allow_div=True):
+    def __init__(self, rng, cols, max_depth=3, allow_div=True, obj=None):
         self.rng = rng
         self.cols = cols            # [(name, type)]
         self.max_depth = max_depth
         self.bytype = {}
+        # untyped (object) columns: name -> (index of the model's shadow column holding decimal(x), index holding date(x));
+        # the compiler inserts these casts when the OTHER operand of a binary operator is typed (compiler.py _binaryop)
+        self.obj = obj or {}
         for i, (n, t) in enumerate(cols):
-            self.bytype.setdefault(t, []).append((i, n))
+            if t != 'object':
+                self.bytype.setdefault(t, []).append((i, n))
+
+    def objcol(self, as_type):
+        n = self.rng.choice(sorted(self.obj))
+        di, ti = self.obj[n]
+        return E(n, f'(ECol {di if as_type == T_DEC else ti}%nat)', as_type, ['objcast:' + as_type], 0, [n])
 
     # -- leaves
     def const(self, t):
@@ -93,6 +102,13 @@ class Gen:
 
     def gen_decimal(self, d):
         r = self.rng.random()
+        if self.obj and r < 0.25:
+            # object OP int|decimal (either side): implicit cast of the untyped side to decimal, result decimal
+            sym, tag = self.rng.choice([('+', 'BAdd'), ('-', 'BSub'), ('*', 'BMul'), ('/', 'BDiv'), ('%', 'BMod')])
+            o = self.objcol(T_DEC)
+            other = self.expr(self.rng.choice([T_INT, T_DEC]), d)
+            a, b = (o, other) if self.rng.random() < 0.5 else (other, o)
+            return mk(f'({a.text} {sym} {b.text})', f'(EBinary {tag} {a.coq} {b.coq})', T_DEC, f'{tag}[object-cast]', a, b)
         if r < 0.40:
             sym, tag = self.rng.choice([('+', 'BAdd'), ('-', 'BSub'), ('*', 'BMul'), ('%', 'BMod')])
             ta, tb = self.rng.choice([(T_DEC, T_DEC), (T_DEC, T_INT), (T_INT, T_DEC)])
@@ -156,6 +172,14 @@ class Gen:
 
     def gen_bool(self, d):
         r = self.rng.random()
+        if self.obj and r < 0.12:
+            sym, tag = self.rng.choice([('=', 'BEq'), ('!=', 'BNe'), ('<', 'BLt'), ('<=', 'BLe'), ('>', 'BGt'), ('>=', 'BGe')])
+            if self.rng.random() < 0.75:
+                o, other = self.objcol(T_DEC), self.expr(self.rng.choice([T_INT, T_DEC]), d)
+            else:
+                o, other = self.objcol(T_DATE), self.expr(T_DATE, d)
+            a, b = (o, other) if self.rng.random() < 0.5 else (other, o)
+            return mk(f'({a.text} {sym} {b.text})', f'(EBinary {tag} {a.coq} {b.coq})', T_BOOL, f'{tag}[object-cast]', a, b)
         if r < 0.30:
             sym, tag = self.rng.choice([('=', 'BEq'), ('!=', 'BNe'), ('<', 'BLt'), ('<=', 'BLe'), ('>', 'BGt'), ('>=', 'BGe')])
             a, b = self.cmp_pair(d)
